@@ -1189,6 +1189,17 @@ fn cmd_run(world: &World, args: &Args) -> i32 {
     }
 
     // evidence
+    // U1 is judged inside the interpreter children: executions of the probes that completed cleanly
+    let u1_execs: u64 = ub_probe
+        .as_array()
+        .map(|a| {
+            a.iter()
+                .filter_map(|p| p.get("result").and_then(|r| r.as_str()))
+                .filter(|r| r.starts_with("UBPROBE-OK"))
+                .filter_map(|r| r.split("executions=").nth(1).and_then(|x| x.split_whitespace().next()).and_then(|x| x.parse::<u64>().ok()))
+                .sum()
+        })
+        .unwrap_or(0);
     let distinct_histories = st.distinct.len() as u64;
     let distinct_nontrivial: u64 = st.distinct.values().map(|v| *v as u64).sum();
     let lay_w = st.lay_written.iter().filter(|c| **c > 0).count();
@@ -1271,7 +1282,7 @@ fn cmd_run(world: &World, args: &Args) -> i32 {
                 "stubs_owned_by_the_simulator": ["SimOutput (codec::Output)", "SimInput (codec::Input)", "SimRead (std::io::Read under IoReader)", "TokSer / TokDe (serde Serializer / Deserializer, SeqAccess, MapAccess)", "the medium (a byte vector)", "reference model: bits >> 8i little-endian bytes + shape framing", "metadata-driven foreign decoder", "hand-written LE reader"],
                 "absent_not_simulated": ["scheduler/threads", "clock/timers", "network topology", "process crash/restart", "allocator failure"],
             },
-            "oracle_evaluations_that_held": exec::CHECK_IDS.iter().enumerate().map(|(i, id)| (id.to_string(), json!(st.checks_ok[i]))).collect::<serde_json::Map<String, Value>>(),
+            "oracle_evaluations_that_held": exec::CHECK_IDS.iter().enumerate().map(|(i, id)| (id.to_string(), if *id == "U1" { json!(u1_execs) } else { json!(st.checks_ok[i]) })).collect::<serde_json::Map<String, Value>>(),
             "oracle_to_clause": {
                 "E1": "a: encode == width/8 LE bytes of the bits (reference model), every writer entry point",
                 "E2": "b: max_encoded_len == encoded_size == encode().len() == width/8 (containers: equal to the integer twin's)",
